@@ -241,18 +241,23 @@ static bool gen_addColumnsByConstant(Rng& r, const Shadow& s, Op& op)
   bool bin       = a.type == T_SEL;
   double valinit = dval(r, bin);
   std::string radix = pickName(r);
+  // "nechInit Number of samples (used only if the Db is initially empty)"
+  bool empty   = s.nech == 0 && s.ncol() == 0;
+  int nechInit = empty ? r.irange(1, 6) : 0;
   op.name = "addColumnsByConstant";
   op.fam  = "add";
-  op.args = std::to_string(nadd) + "," + pd(valinit) + ",'" + radix + "'," + locStrArgs(a);
+  op.args = std::to_string(nadd) + "," + pd(valinit) + ",'" + radix + "'," + locStrArgs(a) + (empty ? ",nechInit=" + std::to_string(nechInit) : std::string());
   op.valid = [=](const Shadow& s) {
-    if (s.nech < 1) return false;
+    if (empty != (s.nech == 0 && s.ncol() == 0)) return false;
+    if (!empty && s.nech < 1) return false;
     if (a.type >= 0 && a.idx > (int)s.loc[a.type].size()) return false;
     if (a.type >= 0 && isUniq(a.type) && nadd != 1) return false;
     return true;
   };
   op.run = [=](Db*& db, Shadow& s, Exp& e) {
     int nmax = s.nmax;
-    int ret  = db->addColumnsByConstant(nadd, valinit, radix, EL(a.type), a.idx);
+    int ret  = db->addColumnsByConstant(nadd, valinit, radix, EL(a.type), a.idx, nechInit);
+    if (empty) s.nech = nechInit;
     modelAdd(s, e, nadd, radix, std::vector<std::vector<double>>(nadd, std::vector<double>(s.nech, valinit)), a.type, a.idx);
     e.ret("addColumnsByConstant returned " + std::to_string(ret) + ", first new UID is " + std::to_string(nmax), ret == nmax);
   };
@@ -268,6 +273,9 @@ static bool gen_addColumns(Rng& r, const Shadow& s, Op& op)
   a.clean     = false;
   bool useSel = s.selUid() >= 0 && s.selClean() && s.nactive() > 0 && r.coin(0.4);
   int n       = useSel ? s.nactive() : s.nech;
+  // "Particular case where the Db is empty. Set its dimension to the number of samples of the input array 'tab'"
+  bool empty  = s.nech == 0 && s.ncol() == 0;
+  if (empty) n = r.irange(1, 6);
   bool bin    = a.type == T_SEL;
   double valinit = variant == 0 ? (bin ? 0. : dval(r, false)) : (variant == 1 ? TEST : 0.);
   if (bin && variant == 1 && useSel) useSel = false, n = s.nech; // masked samples of a new selection would be TEST
@@ -281,9 +289,10 @@ static bool gen_addColumns(Rng& r, const Shadow& s, Op& op)
   op.fam  = "add";
   op.args = pv(tab) + ",'" + radix + "'," + locStrArgs(a) + ",useSel=" + std::to_string(useSel) + ",valinit=" + pd(valinit) + ",nvar=" + std::to_string(nvar);
   op.valid = [=](const Shadow& s) {
-    if (s.nech < 1) return false;
+    if (empty != (s.nech == 0 && s.ncol() == 0)) return false;
+    if (!empty && s.nech < 1) return false;
     if (useSel && (!s.selClean() || s.selUid() < 0)) return false;
-    if ((useSel ? s.nactive() : s.nech) != n || n == 0) return false;
+    if (!empty && ((useSel ? s.nactive() : s.nech) != n || n == 0)) return false;
     if (a.type >= 0 && a.idx > (int)s.loc[a.type].size()) return false;
     if (a.type >= 0 && isUniq(a.type) && nvar != 1) return false;
     if (AVOID_ADDCOLUMNS_USESEL_SEL && a.type == T_SEL && useSel) return false;
@@ -292,6 +301,7 @@ static bool gen_addColumns(Rng& r, const Shadow& s, Op& op)
   };
   op.run = [=](Db*& db, Shadow& s, Exp& e) {
     int nmax = s.nmax;
+    if (empty) s.nech = n;
     std::vector<std::vector<double>> vals(nvar, std::vector<double>(s.nech, valinit));
     for (int iv = 0; iv < nvar; iv++)
     {
@@ -443,17 +453,30 @@ static bool gen_addSelection(Rng& r, const Shadow& s, Op& op)
 static bool gen_generateRank(Rng& r, const Shadow& s, Op& op)
 {
   std::string radix = r.coin(0.5) ? "rank" : pickName(r);
-  op.name = "generateRank";
+  bool coords       = s.grid && r.coin(0.5); // DbGrid::generateCoordinates(radix): ndim new columns with role X from rank 1
+  if (coords) radix = r.coin(0.5) ? "x" : radix;
+  op.name = coords ? "DbGrid::generateCoordinates" : "generateRank";
   op.fam  = "add";
   op.args = "'" + radix + "'";
-  op.valid = [=](const Shadow& s) { return s.nech >= 1; };
+  op.valid = [=](const Shadow& s) { return s.nech >= 1 && (!coords || s.grid); };
   op.run = [=](Db*& db, Shadow& s, Exp& e) {
+    if (coords)
+    {
+      DbGrid* g = dynamic_cast<DbGrid*>(db);
+      int ndim  = g->getNDim();
+      g->generateCoordinates(radix);
+      std::vector<int> nu;
+      modelAdd(s, e, ndim, radix, std::vector<std::vector<double>>(ndim, std::vector<double>(s.nech, 0.)), T_X, 0, &nu);
+      // values = coordinates of the nodes as the grid itself reports them
+      for (int i = 0; i < ndim; i++)
+        for (int ie = 0; ie < s.nech; ie++) s.cols[nu[i]].v[ie] = g->getCoordinate(ie, i);
+      return;
+    }
     db->generateRank(radix);
     std::vector<double> v(s.nech);
     for (int i = 0; i < s.nech; i++) v[i] = i + 1;
     modelAdd(s, e, 1, radix, {v}, -1, 0);
   };
-  (void)r;
   return true;
 }
 
@@ -1291,7 +1314,7 @@ struct GenEntry
   double w;
 };
 static const std::vector<GenEntry> GENS = {
-  {gen_addColumnsByConstant, 6}, {gen_addColumns, 7}, {gen_addColumnsRandom, 1.5}, {gen_addSelection, 5}, {gen_generateRank, 1},
+  {gen_addColumnsByConstant, 6}, {gen_addColumns, 7}, {gen_addColumnsRandom, 1.5}, {gen_addSelection, 5}, {gen_generateRank, 1.5},
   {gen_delete, 12}, {gen_rename, 10}, {gen_setLocator, 22}, {gen_clearSwitch, 4}, {gen_setCell, 8}, {gen_setColumn, 9},
   {gen_setBlock, 7}, {gen_samples, 6}, {gen_object, 3}, {gen_upd, 5}, {gen_setItem, 4}, {gen_namconv, 2.5}, {gen_pattern, 3}};
 
@@ -1317,7 +1340,7 @@ static bool genOp(Rng& r, const Shadow& s, Op& op)
 // =====================================================================================================================
 struct Init
 {
-  int kind; // 0 createFromSamples 1 empty Db + first columns 2 DbGrid::create
+  int kind; // 0 createFromSamples 1 empty Db + first columns 2 DbGrid::create 3 empty Db
   int nech, nvar;
   bool byCol, rank, coords;
   std::vector<double> tab;
@@ -1327,6 +1350,7 @@ struct Init
   std::string describe() const
   {
     if (kind == 0) return "Db::createFromSamples(" + std::to_string(nech) + (byCol ? ",COLUMN," : ",SAMPLE,") + pv(tab) + "," + pv(names) + "," + pv(locs) + ",rank=" + std::to_string(rank) + ")";
+    if (kind == 3) return "Db::create()";
     if (kind == 1) return "Db::create()+addColumns(" + pv(tab) + ",'" + names[0] + "',nvar=" + std::to_string(nvar) + ")";
     return "DbGrid::create(" + pv(nx) + "," + pv(dx) + "," + pv(x0) + "," + pv(ang) + (byCol ? ",COLUMN," : ",SAMPLE,") + pv(tab) + "," + pv(names) + "," + pv(locs) + ",rank=" + std::to_string(rank) + ",coords=" + std::to_string(coords) + ")";
   }
@@ -1335,7 +1359,7 @@ static Init drawInit(Rng& r, bool thorough)
 {
   Init in;
   double u  = r.u01();
-  in.kind   = u < 0.55 ? 0 : u < 0.7 ? 1 : 2;
+  in.kind   = u < 0.5 ? 0 : u < 0.62 ? 1 : u < 0.7 ? 3 : 2;
   in.byCol  = r.coin();
   in.rank   = r.coin(0.6);
   in.coords = r.coin(0.7);
@@ -1356,6 +1380,7 @@ static Init drawInit(Rng& r, bool thorough)
   }
   else
     in.nech = r.irange(1, thorough ? 14 : 9);
+  if (in.kind == 3) in.nech = 0, in.nvar = 0;
   in.tab = dvals(r, in.nech * in.nvar, false);
   // names with deliberate duplicates; locator names: per type the rank is "next" or an already used one (never a gap)
   static const std::vector<std::string> LT = {"x", "x", "z", "z", "v", "f", "NA", "NA", "w", "code"};
@@ -1378,6 +1403,7 @@ static Db* buildInit(const Init& in)
 {
   const ELoadBy& order = in.byCol ? ELoadBy::COLUMN : ELoadBy::SAMPLE;
   if (in.kind == 0) return Db::createFromSamples(in.nech, order, VectorDouble(in.tab), VS(in.names), VS(in.locs), in.rank);
+  if (in.kind == 3) return Db::create();
   if (in.kind == 1)
   {
     Db* db = Db::create();
@@ -1519,7 +1545,7 @@ static RunResult runHistory(const Init& in, std::vector<Op>& ops, Ctx* c, const 
   }
   resync(db, s);
   // what was passed must be what is in the table (values only: names / locators of the constructor are read back)
-  if (in.kind != 1 && in.nvar > 0)
+  if (in.kind != 1 && in.kind != 3 && in.nvar > 0)
   {
     int shift = db->getColumnNumber() - in.nvar;
     bool ok   = shift >= 0 && s.nech == in.nech;
